@@ -107,6 +107,11 @@ def run(ctx):
                                        ctx.repo.func("pandapower.pf.run_dc_pf:_run_dc_pf")])
     if n < 2:
         ctx.fail("SLACK-SPLIT: the slack sharing statements were not found")
+    _lints.split_total(ctx, "SPLIT-TOTAL")
+    R6 = "PFSOLN-TWIN"
+    ctx.rule(R6, "the numba and the pypower implementation of pfsoln keep the same generator bookkeeping (on, gbus, Sbus, _update_v, "
+                 "_update_q, extension by the Q-limited generators, _update_p): the slack power is written to the same generator rows")
+    _lints.pfsoln_twins(ctx, R6)
 
 
 def rule_shortcut_guard(ctx):
@@ -171,6 +176,10 @@ def variants(repo):
         V("shortcut with conductance shunts", "pandapower/pf/run_newton_raphson_pf.py", replace_once('shunt_in_net = any(ppci["bus"][:, BS]) or any(ppci["bus"][:, GS])', 'shunt_in_net = any(ppci["bus"][:, BS])'), "SHORTCUT-GUARD"),
         V("shortcut with zip loads", "pandapower/pf/run_newton_raphson_pf.py", replace_once('                                             and not options["voltage_depend_loads"] \\\n', ""), "SHORTCUT-GUARD"),
         V("ac slack split by all gens at the bus", "pandapower/pypower/pfsoln.py", replace_once("gen[ext_grids, PG] = p_ext_grids / len(ext_grids)", "gen[ext_grids, PG] = p_ext_grids / len(gens_at_bus)"), "SLACK-SPLIT"),
+        V("numba pfsoln re-adds limited gens at reference buses only", "pandapower/pf/pfsoln_numba.py", replace_once("on = find((gen[:, GEN_STATUS] > 0) | isin(arange(len(gen)), limited_gens))", "on = find((gen[:, GEN_STATUS] > 0) | (isin(arange(len(gen)), limited_gens) & isin(gen[:, GEN_BUS].astype(int64), ref)))"), "PFSOLN-TWIN"),
+        V("equal split of the whole bus power among all gens", "pandapower/pypower/pfsoln.py", replace_once("gen[ext_grids, PG] = p_ext_grids / len(ext_grids)", "gen[gens_at_bus, PG] = p_bus / len(gens_at_bus)"), "SPLIT-TOTAL"),
+        V("equal split forgets the pv generation", "pandapower/pypower/pfsoln.py", replace_once("gen[ext_grids, PG] = p_ext_grids / len(ext_grids)", "gen[ext_grids, PG] = p_bus / len(ext_grids)"), "SPLIT-TOTAL"),
+        V("twin: pv sum in a local", "pandapower/pypower/pfsoln.py", replace_once("        p_ext_grids = p_bus - sum(gen[pv_gens, PG])\n", "        p_pv = sum(gen[pv_gens, PG])\n        p_ext_grids = p_bus - p_pv\n"), None),
         V("dc slack split counts all gens", "pandapower/pf/run_dc_pf.py", replace_once("ext_grids_bus=bincount(refgenbus)", "ext_grids_bus=bincount(gen[:, GEN_BUS].astype(np.int64))"), "SLACK-SPLIT"),
         V("twin: sum order", rb, replace_once("pl_mw = phv_mw + pmv_mw + plv_mw", "pl_mw = plv_mw + (phv_mw + pmv_mw)"), None),
     ]
